@@ -315,6 +315,12 @@ func execute(h *run.H, tr *hist.Trace, draw func(w *hist.World, scoutR *sim.Repl
 		// the twin's block: same environment, failed transactions removed
 		specB := spec
 		specB.Txs = nil
+		// the twin's block keeps the subject's header and hash (computed from the full transaction list): a contract
+		// may read BLOCKHASH, and a block's hash legitimately covers the transactions that failed
+		specB.HeaderTxs = spec.Txs
+		if specB.HeaderTxs == nil {
+			specB.HeaderTxs = [][]byte{}
+		}
 		kept := &sim.BlockRes{Height: resA.Height, Updates: resA.Updates, AppHash: resA.AppHash}
 		var failedKinds []string
 		for k, r := range resA.Txs {
